@@ -17,11 +17,12 @@ inductive Suffix
 
 /-- what a file holds.
 * `absent`  - no such directory entry
-* `torn`    - exists; holds an arbitrary prefix of what was meant to be written (being written, or cut by a crash)
+* `empty`   - exists with length 0 (just created)
+* `torn`    - exists; holds an arbitrary non-empty prefix of what was meant to be written (being written, or cut by a crash)
 * `holed`   - exists, was written to the end, but at least one write failed without the writer noticing
 * `full`    - exists, every byte that was meant to be there was written and fsynced -/
 inductive Content
-  | absent | torn | holed | full
+  | absent | empty | torn | holed | full
   deriving DecidableEq, Repr
 
 structure FileSet where
@@ -112,6 +113,27 @@ def loadEffect (fs : FileSet) : FileSet :=
 
 def load (fs : FileSet) : Outcome × FileSet := (classify fs, loadEffect fs)
 
+/-- what the store holds for the fraction once `FracManager.Load` returned -/
+inductive Loaded
+  | none      -- not loaded: unknown, skipped, deletion finished, or an empty active fraction that was removed
+  | active    -- replayed active fraction
+  | sealed    -- sealed fraction
+  | down      -- the process died (`logger.Fatal` / `logger.Panic`): the store does not start
+  deriving DecidableEq, Repr
+
+/-- `load` with the parts that depend on contents: `NewActive` creates a missing `.docs`; a replayed active
+fraction with no documents (empty `.meta`) is removed again (`removeFractionFiles`); `NewSealed` reads the header
+block of the index (no `.frac-cache` entry) and dies on an empty index file. -/
+def startup (fs : FileSet) : Loaded × FileSet :=
+  match classify fs with
+  | .unknown | .skipped => (.none, fs)
+  | .cleaned => (.none, removeFractionFiles fs)
+  | .fatal => (.down, fs)
+  | .sealed _ => (if fs.index = .empty then .down else .sealed, loadEffect fs)
+  | .active =>
+    let fs' := { fs with docs := if fs.docs = .absent then .empty else fs.docs }
+    if fs.metaF = .empty then (.none, removeFractionFiles fs') else (.active, fs')
+
 /-- are the fraction's documents available after start-up? -/
 inductive Served
   | all          -- every document of the fraction is searchable and fetchable
@@ -120,14 +142,14 @@ inductive Served
   | down         -- the store does not start
   deriving DecidableEq, Repr
 
-/-- A sealed fraction serves everything iff its index and its documents file are complete; an index that is not
-complete is either unreadable at start-up or lacks blocks.  An active fraction serves what .docs/.meta hold. -/
+/-- A sealed fraction serves everything iff its index and its documents file are complete.  An active fraction
+serves what .docs/.meta hold. -/
 def served (fs : FileSet) : Served :=
-  match (load fs).1 with
+  match classify fs with
   | .unknown | .cleaned | .skipped => .none
   | .fatal => .down
-  | .sealed src => if fs.index = .full ∧ fs.get src = .full then .all else .part
-  | .active => if fs.docs = .full ∧ fs.metaF = .full then .all else .part
+  | .sealed src => if fs.index = .full ∧ fs.get src = .full then .all else if fs.index = .empty then .down else .part
+  | .active => if fs.docs = .full ∧ fs.metaF = .full then .all else if fs.metaF = .empty then .none else .part
 
 /-- the temporary files play no role in loading -/
 theorem classify_tmp (fs : FileSet) (a b : Content) : classify { fs with sdocsTmp := a, indexTmp := b } = classify fs := rfl
@@ -140,7 +162,7 @@ theorem classify_sealed_src (fs : FileSet) (src : Suffix) (h : classify fs = .se
 
 theorem served_tmp (fs : FileSet) (a b : Content) : served { fs with sdocsTmp := a, indexTmp := b } = served fs := by
   unfold served
-  simp only [load, classify_tmp]
+  simp only [classify_tmp]
   cases h : classify fs <;> try rfl
   case sealed src =>
     rcases classify_sealed_src fs src h with rfl | rfl <;> rfl
